@@ -147,6 +147,18 @@ DenPrevent(P, f, a) ==
             [] s.t = "batch" -> <<"X", "RuntimeError">>
   IN Go(1, <<>>)
 
+(* Memento.forget_exceptions_recursively() on the memento of key k (beyond the listed properties): if the  *)
+(* call failed, it and every failed call recorded beneath it - followed through the recorded invocations,     *)
+(* as far as they are memoized, only through failed ones - are forgotten; nothing else is.                     *)
+RECURSIVE ExcClosure(_, _, _, _)
+ExcClosure(P, memo, frontier, acc) ==
+  IF frontier = {} THEN acc
+  ELSE LET k    == CHOOSE x \in frontier : TRUE
+           d    == Den(P, k[1], k[2], k[3])
+           take == k \in memo /\ d.out = "E" /\ k \notin acc
+           nxt  == IF take THEN SeqToSet(d.invs) ELSE {}
+       IN ExcClosure(P, memo, (frontier \cup nxt) \ {k}, IF take THEN acc \cup {k} ELSE acc)
+
 (* a root batch: elements evaluated in order against the evolving store               *)
 RECURSIVE RunBatch(_, _, _, _, _)
 RunBatch(P, memo, f, args, c) ==
